@@ -7,6 +7,7 @@ import (
 	"os"
 	"path/filepath"
 	"sort"
+	"strconv"
 	"strings"
 )
 
@@ -391,6 +392,86 @@ func extractCmdClass(t *T) (string, error) {
 			strings.Contains(src, "b.users[userID] = user")
 	}
 
+	// ---- files of a user: db/deferred_delete.go DeleteDB, internal/db_impl/sqlite3/client.go ----
+	bytesCoq := func(b string) string {
+		p := make([]string, len(b))
+		for i := 0; i < len(b); i++ {
+			p[i] = fmt.Sprint(int(b[i]))
+		}
+		return "[" + strings.Join(p, "; ") + "]"
+	}
+	const ddfile = "db/deferred_delete.go"
+	ddf, err := t.ParseFile(ddfile)
+	if err != nil {
+		return "", err
+	}
+	ddPattern := false
+	var ddSuffixes []string
+	if fd := FuncDecl(ddf, "", "DeleteDB"); fd != nil {
+		ast.Inspect(fd.Body, func(n ast.Node) bool {
+			switch x := n.(type) {
+			case *ast.CallExpr:
+				src := normSrc(t.Src(ddfile, x.Fun))
+				switch src {
+				case "filepath.Glob", "filepath.Match", "filepath.Walk", "filepath.WalkDir", "os.ReadDir", "path.Match":
+					ddPattern = true
+				}
+			case *ast.BinaryExpr:
+				// userID + "<literal>": a pattern if the literal has a metacharacter
+				if id, ok := x.X.(*ast.Ident); ok && id.Name == "userID" && x.Op == token.ADD {
+					if bl, ok := x.Y.(*ast.BasicLit); ok && bl.Kind == token.STRING {
+						if v, err := strconv.Unquote(bl.Value); err == nil {
+							ddSuffixes = append(ddSuffixes, v)
+						}
+					}
+				}
+			case *ast.CompositeLit:
+				// []string{".db", …} ranged over and appended to userID
+				if normSrc(t.Src(ddfile, x.Type)) == "[]string" {
+					for _, e := range x.Elts {
+						if bl, ok := e.(*ast.BasicLit); ok && bl.Kind == token.STRING {
+							if v, err := strconv.Unquote(bl.Value); err == nil {
+								ddSuffixes = append(ddSuffixes, v)
+							}
+						}
+					}
+				}
+			}
+			return true
+		})
+	} else {
+		return "", fmt.Errorf("db.DeleteDB not found")
+	}
+	const sqfile = "internal/db_impl/sqlite3/client.go"
+	sqf, err := t.ParseFile(sqfile)
+	if err != nil {
+		return "", err
+	}
+	dbSuffix, uriEscape, deleteViaDeleteDB := "", "", false
+	if fd := FuncDecl(sqf, "", "getDatabasePath"); fd != nil && len(fd.Body.List) == 1 {
+		src := normSrc(t.Src(sqfile, fd.Body.List[0]))
+		const pre, post = `return filepath.Join(dir, fmt.Sprintf("%v`, `", userID))`
+		if strings.HasPrefix(src, pre) && strings.HasSuffix(src, post) {
+			dbSuffix = src[len(pre) : len(src)-len(post)]
+		}
+	}
+	if fd := FuncDecl(sqf, "", "getDatabaseConn"); fd != nil {
+		ast.Inspect(fd.Body, func(n ast.Node) bool {
+			if as, ok := n.(*ast.AssignStmt); ok && len(as.Lhs) == 1 && len(as.Rhs) == 1 {
+				if id, ok := as.Lhs[0].(*ast.Ident); ok && id.Name == "escapedPath" {
+					if call, ok := as.Rhs[0].(*ast.CallExpr); ok {
+						uriEscape = normSrc(t.Src(sqfile, call.Fun))
+					}
+				}
+			}
+			return true
+		})
+		if !strings.Contains(normSrc(t.Src(sqfile, fd.Body)), `fmt.Sprintf("file:%v?cache=shared&_fk=1&_journal=WAL", escapedPath)`) {
+			uriEscape = "?" + uriEscape
+		}
+	}
+	deleteViaDeleteDB = strings.Contains(normSrc(func() string { b, _ := t.ReadFile(sqfile); return b }()), "return db.DeleteDB(dir, userID)")
+
 	var sb strings.Builder
 	sb.WriteString("From Coq Require Import List String NArith Bool.\nImport ListNotations.\nLocal Open Scope string_scope.\n\n")
 	sb.WriteString("Inductive hclass := HAny | HNotAuth | HAuth | HSelected | HOther.\n\n")
@@ -431,5 +512,15 @@ func extractCmdClass(t *T) (string, error) {
 	sb.WriteString("Definition jail_timer_resets_counter : bool := " + coqBool(timerResets) + ".\n")
 	sb.WriteString("Definition state_created_for_authorised_user : bool := " + coqBool(stateOfAuthorised) + ".\n")
 	sb.WriteString("Definition per_user_store_and_database : bool := " + coqBool(perUser) + ".\n")
+	sb.WriteString("(* the files of a user: db.DeleteDB (RemoveUser with removeFiles) and the SQLite database path / URI *)\n")
+	sb.WriteString("Definition delete_db_uses_pattern : bool := " + coqBool(ddPattern) + ".\n")
+	sfx := make([]string, len(ddSuffixes))
+	for i, v := range ddSuffixes {
+		sfx[i] = bytesCoq(v)
+	}
+	sb.WriteString("Definition delete_db_suffixes : list (list N) := [" + strings.Join(sfx, "; ") + "]%N.   (* " + strings.ReplaceAll(fmt.Sprintf("%q", ddSuffixes), "*)", "* )") + " *)\n")
+	sb.WriteString("Definition db_file_suffix : list N := " + bytesCoq(dbSuffix) + "%N.   (* getDatabasePath: dir/<userID>" + dbSuffix + " *)\n")
+	sb.WriteString("Definition db_delete_goes_through_DeleteDB : bool := " + coqBool(deleteViaDeleteDB) + ".\n")
+	sb.WriteString("Definition db_uri_escape : string := " + coqString(uriEscape) + ".   (* applied to the whole path in file:<path>?cache=… *)\n")
 	return sb.String(), nil
 }
